@@ -56,6 +56,26 @@ Lemma go_isValidSignedData_nil : forall mg,
   run_fun gen_funs [] "Manager.isValidSignedData" (Some (VMgr mg)) [VOSData None] = Some [VBool false].
 Proof. intros mg; gsolve. Qed.
 
+(* types/state.go State.NextState  =  Types.next_state: the new state takes height and time from the header, the
+   root from the execution result AS RETURNED (whatever it is), and everything else from the old state *)
+Definition state_of_rec (v : gval) : option cstate :=
+  match v with
+  | VRec fs =>
+      match lookup fs "ChainID", lookup fs "InitialHeight", lookup fs "LastBlockHeight", lookup fs "LastBlockTime",
+            lookup fs "AppHash", lookup fs "DAHeight" with
+      | Some (VN c), Some (VN i), Some (VN h), Some (VZ t), Some (VRoot r), Some (VN d) =>
+          Some {| s_chain := c; s_initial := i; s_height := h; s_time := t; s_app := r; s_da := d |}
+      | _, _, _, _, _, _ => None
+      end
+  | _ => None
+  end.
+Lemma go_NextState : forall s h r,
+  match run_fun gen_funs [] "State.NextState" (Some (VState s)) [VHeader h; VRoot r] with
+  | Some [v; e] => state_of_rec v = Some (next_state s h r) /\ e = VNil
+  | _ => False
+  end.
+Proof. intros s h r; destruct s, h. lazy. split; reflexivity. Qed.
+
 (* every lemma is closed under the global context (bin/tr-golite fails on any "Axioms:" line) *)
 Print Assumptions go_Header_ValidateBasic.
 Print Assumptions go_Signature_ValidateBasic.
@@ -65,3 +85,4 @@ Print Assumptions go_execValidate.
 Print Assumptions go_isUsingExpectedSingleSequencer.
 Print Assumptions go_isValidSignedData.
 Print Assumptions go_isValidSignedData_nil.
+Print Assumptions go_NextState.
